@@ -66,9 +66,7 @@ Theorem C10_inside_equation_partial : forall (P : Space) (G : nat) lik sfrac fix
        let d := if std then npmax P val else s_id P in
        i_ins P st' (fst g) = Some (vratio P val d) /\ i_den P st' (fst g) = Some d) /\
   i_marg P st' = (if std then marg_acc P fixed (i_den P st') (i_marg P st) gs else i_marg P st).
-Proof. intros P G lik sfrac fixed prior std gs st st' Hord H.
-  destruct (inside_groups_spec P G lik sfrac fixed prior std gs [] st st' Hord H) as (_ & Heq & Hm).
-  split; [exact Heq|exact Hm]. Qed.
+Proof. exact inside_equation. Qed.
 Print Assumptions C10_inside_equation_partial.
 
 (** worked example with exact rationals (3 leaves, 2 internal nodes, 3 timepoints, prior 0 at
